@@ -178,19 +178,27 @@ def _write_harness_ninja(flavour):
 
 
 def ensure(flavour, quiet=False):
-    """Bring libraries and vh of this flavour up to date with /repo's working tree. Returns path of vh."""
+    """Bring libraries and vh of this flavour up to date with /repo's working tree. Returns path of vh.
+    Two locks: the flavour lock covers the library build only; the harness build takes a lock per harness dir, so that
+    private (VH_DEV) binaries of different engines build concurrently."""
     os.makedirs(BUILD, exist_ok=True)
     t0 = time.time()
+    bdir = os.path.join(BUILD, flavour)
+    log = os.path.join(BUILD, flavour + ".build.log")
     lock = open(os.path.join(BUILD, flavour + ".lock"), "w")
     fcntl.flock(lock, fcntl.LOCK_EX)
     try:
         configure(flavour)
-        bdir = os.path.join(BUILD, flavour)
-        log = os.path.join(BUILD, flavour + ".build.log")
-        open(log, "w").close()
         rc, out = _run(["ninja", "-C", bdir] + LIB_TARGETS, log=log, env=_env())
         if rc != 0:
             raise BuildError("library build failed (%s); see %s\n%s" % (flavour, log, out[-4000:]))
+        dev_name, _ = _dev()
+        hlock = open(os.path.join(BUILD, "%s.vh.%s.lock" % (flavour, dev_name or "full")), "w")
+        fcntl.flock(hlock, fcntl.LOCK_EX)
+    finally:
+        fcntl.flock(lock, fcntl.LOCK_UN)
+        lock.close()
+    try:
         hdir, vh = _write_harness_ninja(flavour)
         rc, out = _run(["ninja", "-C", hdir], log=log, env=_env())
         if rc != 0:
@@ -199,8 +207,8 @@ def ensure(flavour, quiet=False):
             print("[build] %s up to date in %.1fs" % (flavour, time.time() - t0), flush=True)
         return vh
     finally:
-        fcntl.flock(lock, fcntl.LOCK_UN)
-        lock.close()
+        fcntl.flock(hlock, fcntl.LOCK_UN)
+        hlock.close()
 
 
 if __name__ == "__main__":
